@@ -38,15 +38,17 @@ echo "== demo with the change (must fail)"
 git -C /repo worktree remove --force $wt
 echo "confirm: clean_demo_exit=$clean suite_with_change_exit=$suite demo_with_change_exit=$seeded"
 if [ $clean -ne 0 ] || [ $suite -ne 0 ] || [ $seeded -eq 0 ]; then echo "SEED NOT CONFIRMED"; echo "not confirmed" > $dst/status.txt; exit 8; fi
-# run our checks against it
-git -C /repo apply $dst/patch.diff || exit 9
+# run our checks against a scratch copy with the change applied (never /repo itself)
+sr=/tmp/seedrepo-$id-$k
+rm -rf $sr; git -C /repo worktree prune; git -C /repo worktree add -q --detach $sr HEAD || exit 9
+git -C $sr apply $dst/patch.diff || exit 9
 results=""
 for cid in $id "$@"; do
-  VERIF_TIER=$tier timeout 3000 /verif/bin/vp check $cid --tier $tier > $dst/check-$cid-$tier.log 2>&1; ec=$?
+  VERIF_REPO=$sr VERIF_OUT=/tmp/seedout-$id-$k VERIF_TIER=$tier timeout 3000 /verif/bin/vp check $cid --tier $tier > $dst/check-$cid-$tier.log 2>&1; ec=$?
   results="$results $cid:$tier:exit=$ec"
   grep "^VIOLATION\|^KNOWN" $dst/check-$cid-$tier.log | head -3
   grep "violation:\|INCONCLUSIVE\|ENGINE-MISMATCH" $dst/check-$cid-$tier.log | head -4
 done
-git -C /repo checkout -- . ; git -C /repo status --short | head -3
+git -C /repo worktree remove --force $sr; rm -rf /tmp/seedout-$id-$k
 echo "RESULT $id-$k:$results"
 echo "$results" >> $dst/status.txt
